@@ -359,13 +359,33 @@ def _c12_check(ctx):
     if ctx.get("replay") and ctx["replay"].endswith(".scn"):
         scen, n = [open(ctx["replay"]).read()], 0
     for _ in range(n):
+        fam = rng.random()
         th = [("W1", "put %s 6161" % K1), ("W2", "put %s 6262" % K2)]
+        if fam < 0.25:
+            # a started store: the periodic flusher (Store.run, 20 ms) is the only one who flushes after the schedule; 0-2 explicit Flush calls inside the schedule
+            # open the windows between a writer's measuring, registering and waiting ("a single writer with no other traffic")
+            if rng.random() < 0.4:
+                th = th[:1]
+            th += [("F%d" % (i + 1), "flush") for i in range(rng.choice((0, 1, 1, 2)))]
+            names = [t[0] for t in th]
+            sched = [rng.choice(names) for _ in range(rng.randint(6, 30))]
+            scen.append("cfg bits=8 burst=1 rate=1e-9 start=1 sync_ms=20 timeout_ms=2500\n" + "".join("thread %s %s\n" % t for t in th) + "schedule " + " ".join(sched) + "\n")
+            continue
         if rng.random() < 0.3:
             th.append(("W3", rng.choice(["remove %s" % K3, "put %s 6363" % K3])))
         nf = rng.choice((1, 2, 2, 3))
         th += [("F%d" % (i + 1), "flush") for i in range(nf)]
         names = [t[0] for t in th]
         sched = [rng.choice(names) for _ in range(rng.randint(8, 40))]
+        if rng.random() < 0.5:
+            sched = ["W1"] * rng.randint(5, 8) + (["W2"] * rng.randint(0, 8)) + sched      # a writer is registered and waiting before any Flush call begins
+        if fam < 0.55:
+            # burst window: several unflushed puts into ONE bucket make the outstanding work a writer measures (every put re-buffers the bucket's whole record list)
+            # exceed the burst rate while what a Flush really writes may stay below it
+            ks = rng.sample([k for k in CKEYS if k not in (K1, K2)], 3) + [K3]
+            setup = "".join("setup put %s %s\n" % (k, "61" * rng.randint(1, 12)) for k in ks[:rng.randint(2, 4)])
+            scen.append("cfg bits=8 burst=%d rate=1e-9 timeout_ms=1500\n" % rng.choice((60, 100, 150, 200, 300, 400)) + setup + "".join("thread %s %s\n" % t for t in th) + "schedule " + " ".join(sched) + "\nfree flush\n")
+            continue
         setup = "setup put %s 6060\nsetup flush\n" % K3 if rng.random() < 0.5 else ""
         scen.append("cfg bits=8 burst=1 rate=1e-9 timeout_ms=1500\n" + setup + "".join("thread %s %s\n" % t for t in th) + "schedule " + " ".join(sched) + "\nfree flush\n")
     res = run_conc(scen, wd, "c12")
@@ -380,7 +400,14 @@ def _c12_check(ctx):
         bad = None
         if r["stuck"] and not confirm_stuck(txt, r, wd):
             continue            # slow, not blocked
-        if r["stuck"]:
+        if r.get("unreleased"):
+            _, r2, _ = run_conc([re.sub(r"timeout_ms=(\d+)", lambda m: "timeout_ms=%d" % (4 * int(m.group(1))), txt)], wd, "confirm")[0]
+            if r2 is not None and r2.get("unreleased"):
+                u = r2["unreleased"][0]
+                bad = "writer %s, registered for the flush notice, is still waiting although Flush call %s began afterwards and completed successfully (it is released only by a later flush)" % (u["writer"], u["flush"])
+        if bad:
+            pass
+        elif r["stuck"]:
             bad = "thread(s) %s still blocked %s ms after the schedule although %d later Flush calls succeeded" % (r["stuck"], 1500, r["flushes_in_free_run"])
         else:
             for t in r["threads"]:
@@ -390,6 +417,8 @@ def _c12_check(ctx):
             rp = C.save_replay(prop, "sched-%s.scn" % hashlib.sha1(txt.encode()).hexdigest()[:10], "# C12 fails on the implementation: %s\n# replay: cd /verif && ./check C12 --replay <this file>\n%s" % (bad, txt))
             viol.append(("schedule: " + bad, rp, True))
     return viol, {"evaluations": len(scen), "distinct_nontrivial": len(nontriv), "schedules_in_which_a_writer_reached_the_wait": waited,
+                  "schedules_with_a_flush_that_had_to_release_a_registered_writer": sum(1 for _, r, _ in res if r and r.get("must_release")),
+                  "schedules_on_a_started_store": sum(1 for t in scen if "start=1" in t),
                   "samples": [{"scenario": scen[-1].strip().split("\n")}],
                   "schedule_rule": "2-3 rate-limited writers (BurstRate 1, measured flush rate forced to 1e-9) and 1-3 explicit Flush callers are stepped through the yield points "
                                    "(index lookup, primary put, flushTick after measuring / before waiting, commit after the index flush, Flush after commit) in a random order of 8-40 steps; "
@@ -539,8 +568,9 @@ def _conc_scenarios(rng, n, gc):
         keys = rng.sample(pool, rng.randint(2, 4))
         vals = ["61", "6262", "636363", "-", "6464646464646464"]
         setup = []
-        pmax = rng.choice((60, 100, 1048576)) if gc else 1048576
-        imax = rng.choice((40, 64, 100, 1048576)) if gc else 1048576
+        # without collectors: also tiny file limits that the 8-16 byte records fill EXACTLY (the write path and the flush path must roll over at the same record)
+        pmax = rng.choice((60, 100, 1048576)) if gc else rng.choice((16, 24, 32, 48, 64, 1048576, 1048576, 1048576))
+        imax = rng.choice((40, 64, 100, 1048576)) if gc else rng.choice((40, 64, 1048576, 1048576))
         for k in keys:
             r = rng.random()
             if r < 0.6:
